@@ -25,8 +25,17 @@ def handle (s : S) (i : Nat) (j : Json) : S × List Json :=
     match fInt? j "code", fInt? j "health", fInt? j "safety" with
     | some 0, some h, some sf =>
       -- model: the open was accepted, so `openAccepted` must have held
-      if openAccepted h sf then (s, [verdictOk i])
-      else (s, [verdictViol i "C10.open_healthy" (Json.mkObj [("module", fld j "module"), ("pos", fld j "pos"), ("health", mkInt h), ("safety", mkInt sf)])])
+      if !openAccepted h sf then
+        (s, [verdictViol i "C10.open_healthy" (Json.mkObj [("module", fld j "module"), ("pos", fld j "pos"), ("health", mkInt h), ("safety", mkInt sf)])])
+      else
+        -- the same question asked the way a third party's close request will ask it (interest and funding settled first): the two
+        -- computations round differently, so only a gap of more than 10^-4 of the safety factor counts
+        match fInt? j "liqHealth" with
+        | some lh =>
+          if lh * 10000 < sf * 9999 then
+            (s, [verdictViol i "C10.open_healthy" (Json.mkObj [("module", fld j "module"), ("pos", fld j "pos"), ("health", mkInt h), ("healthAsForceCloseComputesIt", mkInt lh), ("safety", mkInt sf)])])
+          else (s, [verdictOk i])
+        | none => (s, [verdictOk i])
     | _, _, _ => (s, [verdictOk i])
   | some "c10.ownerclose" =>
     if (fBool? j "signerIsOwner") == some false && (fInt? j "code") == some 0 then
